@@ -17,13 +17,14 @@ import (
 )
 
 type refT struct {
-	m    map[uint64][]byte
-	nb   map[uint64]int      // NO_BROWSE bit of a key: 0 clear, 1 set, 2 unknown (flags are only persisted by sync/defrag)
-	dur  map[uint64]string   // value signature per key at the last sync point ("" = absent)
-	hist map[uint64][]string // signatures written since the last sync point (incl. "" for a delete)
-	vol  bool
-	open bool
-	byts map[string][]byte // every value ever written, by signature (to adopt a recovered state after a crash)
+	m     map[uint64][]byte
+	nb    map[uint64]int      // NO_BROWSE bit of a key: 0 clear, 1 set, 2 unknown (flags are only persisted by sync/defrag)
+	dur   map[uint64]string   // value signature per key at the last sync point ("" = absent)
+	hist  map[uint64][]string // signatures written since the last sync point (incl. "" for a delete)
+	vol   bool
+	open  bool
+	order []uint64          // keys in the order the real store handed them to the walk function of the request being checked
+	byts  map[string][]byte // every value ever written, by signature (to adopt a recovered state after a crash)
 	// dur / hist as they were when the last request had been issued but not yet completed (a crash inside that request
 	// undoes its completion: `crashat`)
 	savedDur  map[uint64]string
@@ -146,10 +147,20 @@ func (f *refT) check(t []string, res string) string {
 		if exp := strconv.Itoa(len(f.m)) + " " + renderKV(want); res != exp {
 			return fmt.Sprintf("Count + BrowseAll give {%s}, the map is {%s}", short(res), short(exp))
 		}
-	case "browse":
+	case "browse", "browseall":
+		// Browse shows every record not flagged NO_BROWSE (BrowseAll: every record), each with the map's value, until the
+		// walk function answers BR_ABORT: f.order is the order in which the real store handed the records to the walk
+		// function — nothing may follow a record whose answer carries BR_ABORT, and without such an answer nothing may
+		// be missing. Whatever else an answer carries (NO_BROWSE / YES_BROWSE) takes effect for that record, the aborting
+		// one included.
+		all := t[0] == "browseall"
 		got, ok := parseKV(res)
 		if !ok {
 			return "unparsable browse result " + short(res)
+		}
+		walk := parseWalk(t[1])
+		if len(f.order) != len(got) {
+			return fmt.Sprintf("the walk function was called %d times for %d distinct keys (order %v)", len(f.order), len(got), f.order)
 		}
 		for k, s := range got {
 			v, ok := f.m[k]
@@ -159,26 +170,42 @@ func (f *refT) check(t []string, res string) string {
 			if s != sig(v) {
 				return fmt.Sprintf("Browse gave %s for key %d, the map holds %s", s, k, sig(v))
 			}
-			if f.nb[k] == 1 {
+			if !all && f.nb[k] == 1 {
 				return fmt.Sprintf("Browse visited key %d which is flagged NO_BROWSE", k)
 			}
 		}
-		for k := range f.m {
-			if _, in := got[k]; !in && f.nb[k] == 0 {
-				return fmt.Sprintf("Browse skipped key %d which is not flagged NO_BROWSE", k)
+		aborted := false
+		for i, k := range f.order {
+			if _, in := got[k]; !in {
+				return fmt.Sprintf("the walk function was called for key %d which is not in the result", k)
+			}
+			if walk[k]&4 != 0 {
+				if i != len(f.order)-1 {
+					return fmt.Sprintf("Browse went on to key %d after the walk function had answered BR_ABORT for key %d", f.order[i+1], k)
+				}
+				aborted = true
 			}
 		}
-		walk := parseWalk(t[1])
+		if !aborted {
+			for k := range f.m {
+				if _, in := got[k]; !in && (all || f.nb[k] == 0) {
+					if all {
+						return fmt.Sprintf("BrowseAll skipped key %d although the walk function never answered BR_ABORT", k)
+					}
+					return fmt.Sprintf("Browse skipped key %d which is not flagged NO_BROWSE (the walk function never answered BR_ABORT)", k)
+				}
+			}
+		}
 		for k := range f.m {
 			if _, in := got[k]; in {
 				fl := walk[k]
 				if fl&1 != 0 {
 					f.nb[k] = 1
-				} else {
-					f.nb[k] = 0
+				} else if fl&16 != 0 || !all {
+					f.nb[k] = 0 // YES_BROWSE, or shown by Browse: it was browsable and stays so
 				}
-			} else {
-				f.nb[k] = 1
+			} else if !aborted && !all {
+				f.nb[k] = 1 // Browse went through the whole index and did not show it
 			}
 		}
 	case "defrag":
